@@ -254,6 +254,9 @@ func NewFrontend(logic frontend.TrackerLogic, provided Config) (*Frontend, error
 	return f, nil
 }
 
+// errStopping is what a request gets that arrives once Stop has begun.
+var errStopping = errors.New("http: frontend is stopping")
+
 // enter counts a request in f.wg unless Stop has begun. Shutdown closes idle
 // connections and stops waiting for them, but a request that is being read on
 // such a connection at that instant is still handed to its handler: those
@@ -262,7 +265,9 @@ func (f *Frontend) enter(w http.ResponseWriter) bool {
 	f.mu.Lock()
 	defer f.mu.Unlock()
 	if f.stopping {
-		http.Error(w, "shutting down", http.StatusServiceUnavailable)
+		// Answered like any other failure that is not the client's fault:
+		// a BitTorrent client expects a bencoded dictionary.
+		_ = WriteError(w, errStopping)
 		return false
 	}
 	f.wg.Add(1)
